@@ -412,9 +412,9 @@ fn ts_us(t: Timestamp) -> u64 {
     unsafe { t.as_duration().as_micros() as u64 }
 }
 
-/// LINKSIM_STRICT=1 promotes the two "stricter than the property statement" observations
-/// (loss inside the 1 ms granularity slack; CUBIC reduction for a packet sent before the previous
-/// recovery start) to violations.  Off by default.
+/// LINKSIM_STRICT=1 promotes the C10 observation "CUBIC reduction for a packet sent before the
+/// previous recovery start" (stricter than the property statement and the RFC prose) to a
+/// violation.  Off by default.
 fn strict() -> bool {
     static S: std::sync::OnceLock<bool> = std::sync::OnceLock::new();
     *S.get_or_init(|| std::env::var("LINKSIM_STRICT").is_ok_and(|v| v == "1"))
@@ -632,6 +632,22 @@ impl<'p, CC: CcKind> Sim<'p, CC> {
             sig: format!("{}:{}", CC::NAME, oracle),
         });
         self.stop = true;
+    }
+
+    /// A violation with a cause-specific signature that is stable across controllers (so one
+    /// known_findings entry can match it).  Recorded once per run; the run continues so that
+    /// everything after it is still checked by the other oracles.
+    fn violate_known_cause(&mut self, property: &str, oracle: &str, sig: &str, detail: String) {
+        if self.stop || property != self.check || self.out.violations.iter().any(|v| v.oracle == oracle && v.sig == sig) {
+            return;
+        }
+        let tail: Vec<String> = self.tail.iter().rev().take(6).rev().cloned().collect();
+        self.out.violations.push(Violation {
+            property: property.into(),
+            oracle: oracle.into(),
+            detail: format!("[{} mtu={}] t={}us {} | recent: {}", CC::NAME, self.mtu, self.now, detail, tail.join(" ; ")),
+            sig: sig.into(),
+        });
     }
 
     // -----------------------------------------------------------------------------------
@@ -1479,43 +1495,44 @@ impl<'p, CC: CcKind> Sim<'p, CC> {
             let by_packets = largest_acked - pnv >= 3;
             let age_ns = (now - meta.t_sent) * 1000;
             let by_time = age_ns >= thr_ns;
-            // 1 ms timer granularity slack (DESIGN section 5); the shadow srtt may differ from the
-            // real one by rounding, 2 us more
-            let by_time_slack = age_ns + 1_002_000 > thr_ns;
+            // exactly the tolerance of Timestamp::has_elapsed (deadlines up to 1 ms in the future
+            // count as elapsed); 2 us more for timestamp truncation and shadow rounding
+            let inside_has_elapsed_tolerance = age_ns + 1_002_000 > thr_ns;
             if by_packets {
                 self.out.probe("lost_by_packet_threshold");
             } else if by_time {
                 self.out.probe("lost_by_time_threshold");
             } else if age_ns + 2_000 >= thr_ns {
-                // microsecond rounding of the loss timer
+                // rounding only: the loss timer is armed in whole microseconds, the shadow's
+                // smoothed_rtt differs from the implementation's by nanoseconds
                 self.out.probe("lost_by_time_threshold");
-            } else if by_time_slack {
+            } else if inside_has_elapsed_tolerance {
+                // The property: "sent more than 9/8 of the current RTT estimate (never less than
+                // 1 ms) earlier".  A must-not-happen-before threshold gets no granularity slack.
                 self.out.probe("lost_by_time_threshold");
-                self.out.observe("lost_up_to_1ms_before_time_threshold");
+                self.out.probe("lost_before_time_threshold_inside_1ms_tolerance");
                 if age_ns * 2 < thr_ns {
-                    self.out.observe("lost_before_half_of_time_threshold");
+                    self.out.probe("lost_before_half_of_time_threshold");
                 }
-                if strict() {
-                    self.violate(
-                        "C09",
-                        "lost_before_time_threshold_strict",
-                        format!("sp{six} pn={pnv} sent {}us ago declared lost: largest_acked={largest_acked} (distance {} < 3), time threshold {}us", now - meta.t_sent, largest_acked - pnv, thr_ns / 1000),
-                    );
-                    return;
-                }
-                if self.out.obs_example.is_none() && age_ns * 2 < thr_ns {
-                    self.out.obs_example = Some((
-                        "lost_up_to_1ms_before_time_threshold".into(),
-                        json!({"space": six, "pn": pnv, "sent_us": meta.t_sent, "now_us": now, "age_us": now - meta.t_sent, "largest_acked": largest_acked,
-                               "time_threshold_us_rfc": thr_ns / 1000, "smoothed_rtt_us": self.rtt.smoothed_rtt().as_micros() as u64, "latest_rtt_us": self.rtt.latest_rtt().as_micros() as u64}),
-                    ));
-                }
+                self.violate_known_cause(
+                    "C09",
+                    "c09.lost_before_time_threshold",
+                    "time_threshold_shortened_by_timer_granularity",
+                    format!(
+                        "sp{six} pn={pnv} sent {}us ago declared lost by loss::detect although largest_acked={largest_acked} (distance {} < kPacketThreshold 3) and the time threshold max(9/8*max(smoothed_rtt,latest_rtt), 1 ms) = {}us has not passed; it is inside the 1 ms tolerance of Timestamp::has_elapsed (recovery/loss.rs:47 -> time/timestamp.rs:138). smoothed_rtt={}us latest_rtt={}us",
+                        now - meta.t_sent,
+                        largest_acked - pnv,
+                        thr_ns / 1000,
+                        self.rtt.smoothed_rtt().as_micros(),
+                        self.rtt.latest_rtt().as_micros()
+                    ),
+                );
             } else {
                 self.violate(
                     "C09",
                     "lost_below_both_thresholds",
                     format!(
-                        "sp{six} pn={pnv} sent {}us ago declared lost: largest_acked={largest_acked} (distance {} < 3) and time threshold 9/8*max(srtt,latest)={}us (shadow {:?}) not reached even with 1 ms slack",
+                        "sp{six} pn={pnv} sent {}us ago declared lost: largest_acked={largest_acked} (distance {} < 3) and time threshold 9/8*max(srtt,latest)={}us (shadow {:?}) not reached, and not explained by the 1 ms tolerance of Timestamp::has_elapsed either",
                         now - meta.t_sent,
                         largest_acked - pnv,
                         thr_ns / 1000,
@@ -1834,7 +1851,7 @@ impl Engine for LinkEngine {
         vec![
             "sampling, not proof",
             "the order of calls into the controller / estimator is my transcription of manager.rs (acked ranges -> MTU probe ack -> RTT sample -> loss detection -> PTO backoff reset -> ECN -> on_ack); a defect in the real glue is out of reach here and is the job of the E1 half",
-            "timing oracles carry 1 ms timer-granularity slack (DESIGN section 5); loss declarations inside that slack are counted as observations",
+            "must-happen-by timing oracles (PTO expiry, persistent-congestion duration terms) carry 1 ms timer-granularity slack (DESIGN section 5); the loss time threshold is a must-not-happen-before bound and gets only 2 us of rounding tolerance",
             "RFC 9002 MAY/SHOULD choices taken by s2n-quic are mirrored in the shadow and listed in shadow.rs (sample ignored before handshake confirmation when the adjusted value would undercut min_rtt; estimator re-initialised by the first sample after persistent congestion)",
             "s2n-quic-core is built with feature `testing` (checked counters panic instead of saturating); a panic inside the component is reported as a violation",
         ]
